@@ -110,6 +110,13 @@ class NameFixPass(ir.passes.InPlacePass):
         value_counter: collections.Counter[str] = collections.Counter()
         node_counter: collections.Counter[str] = collections.Counter()
 
+        # Names present before the pass. A generated name must not take one of them away
+        # from a value or node that is visited later and whose name is unique
+        self._existing_value_names = _collect_value_names(graph_like)
+        self._existing_node_names = {
+            node.name for node in ir.traversal.RecursiveGraphIterator(graph_like) if node.name
+        }
+
         def enter_graph(graph_like) -> None:
             """Callback for entering a subgraph."""
             # Initialize new scopes with all names from the parent scope
@@ -210,7 +217,9 @@ class NameFixPass(ir.passes.InPlacePass):
         )
 
         preferred_name = self._name_generator.generate_value_name(value)
-        value.name = _find_and_record_next_unique_name(preferred_name, used_names, counter)
+        value.name = _find_and_record_next_unique_name(
+            preferred_name, used_names, counter, self._existing_value_names
+        )
         logger.debug("Assigned name %s to unnamed value", value.name)
         return True
 
@@ -223,7 +232,9 @@ class NameFixPass(ir.passes.InPlacePass):
         )
 
         preferred_name = self._name_generator.generate_node_name(node)
-        node.name = _find_and_record_next_unique_name(preferred_name, used_names, counter)
+        node.name = _find_and_record_next_unique_name(
+            preferred_name, used_names, counter, self._existing_node_names
+        )
         logger.debug("Assigned name %s to unnamed node", node.name)
         return True
 
@@ -244,7 +255,9 @@ class NameFixPass(ir.passes.InPlacePass):
 
         # If name is already used, make it unique
         base_name = self._name_generator.generate_value_name(value)
-        value.name = _find_and_record_next_unique_name(base_name, used_names, counter)
+        value.name = _find_and_record_next_unique_name(
+            base_name, used_names, counter, self._existing_value_names
+        )
         logger.debug("Renamed value from %s to %s for uniqueness", original_name, value.name)
         return True
 
@@ -263,17 +276,42 @@ class NameFixPass(ir.passes.InPlacePass):
 
         # If name is already used, make it unique
         base_name = self._name_generator.generate_node_name(node)
-        node.name = _find_and_record_next_unique_name(base_name, used_names, counter)
+        node.name = _find_and_record_next_unique_name(
+            base_name, used_names, counter, self._existing_node_names
+        )
         logger.debug("Renamed node from %s to %s for uniqueness", original_name, node.name)
         return True
 
 
+def _collect_value_names(graph_like: ir.Graph | ir.Function) -> set[str]:
+    """Collect the names of all values in the graph and its subgraphs."""
+    names: set[str] = set()
+
+    def enter_graph(graph) -> None:
+        names.update(value.name for value in graph.inputs if value.name)
+        names.update(value.name for value in graph.outputs if value.name)
+        if isinstance(graph, ir.Graph):
+            names.update(value.name for value in graph.initializers.values() if value.name)
+
+    for node in ir.traversal.RecursiveGraphIterator(graph_like, enter_graph=enter_graph):
+        names.update(value.name for value in node.inputs if value is not None and value.name)
+        names.update(value.name for value in node.outputs if value.name)
+    return names
+
+
 def _find_and_record_next_unique_name(
-    preferred_name: str, used_names: set[str], counter: collections.Counter[str]
+    preferred_name: str,
+    used_names: set[str],
+    counter: collections.Counter[str],
+    existing_names: set[str] | frozenset[str] = frozenset(),
 ) -> str:
-    """Generate a unique name based on the preferred name and current counter."""
+    """Generate a unique name based on the preferred name and current counter.
+
+    The name is neither in ``used_names`` (the names visible so far) nor in
+    ``existing_names`` (the names present before the pass).
+    """
     new_name = preferred_name
-    while new_name in used_names:
+    while new_name in used_names or new_name in existing_names:
         counter[preferred_name] += 1
         new_name = f"{preferred_name}_{counter[preferred_name]}"
     used_names.add(new_name)
